@@ -48,7 +48,7 @@ def run_pool(run, exe, mode, grid, callers, length, seed):
     for p, out, name in procs:
         so, se = p.communicate(timeout=3000)
         if p.returncode != 0:
-            raise Infra("pool driver failed (%s): %s" % (name, se[-2000:]))
+            run.driver_failed("pool driver failed (%s)" % (name), se)
         outs.append((out, name))
     return outs
 
@@ -119,7 +119,7 @@ def check_c06(prop, tier, seed):
     for p, out, mode in jobs:
         so, se = p.communicate(timeout=3000)
         if p.returncode != 0:
-            raise Infra("handler-seq %s failed: %s" % (mode, se[-2000:]))
+            run.driver_failed("handler-seq %s failed" % (mode), se)
         pl.pending.append(out)
     info = digest(run, pl, outs, prop)
     pl.validate()
